@@ -49,10 +49,15 @@ func replayMain(args []string) int {
 		if timeout == 0 {
 			timeout = 60 * time.Second
 		}
-		go func() { // same watchdog as the worker: a hang brings this process down too
-			time.Sleep(timeout)
-			fmt.Fprintf(os.Stderr, "HANG run=%d engine=%s after %v\n", rf.Run, e.Name, timeout)
-			os.Exit(7)
+		go func() { // same watchdog as the worker (CPU time): a hang brings this process down too
+			c0, w0 := cpuNanos(), time.Now()
+			for {
+				time.Sleep(500 * time.Millisecond)
+				if time.Duration(cpuNanos()-c0) > timeout || time.Since(w0) > 20*timeout {
+					fmt.Fprintf(os.Stderr, "HANG run=%d engine=%s after %v of CPU time\n", rf.Run, e.Name, timeout)
+					os.Exit(7)
+				}
+			}
 		}()
 		src := core.NewRandomSource(rf.RunSeed)
 		out := core.Execute(p.ID, e.Name, e.Run, src, false)
